@@ -453,6 +453,15 @@ func checkOutputs(rt *rapid.T, w *realWorld, ids []uuid.UUID, expects [][]taskEx
 		if code, _ := w.get("/job/logs?id=" + id.String() + "&task=" + url.QueryEscape(other)); code != 404 {
 			rt.Fatalf("GET /job/logs for a task the job does not have -> %d, want 404", code)
 		}
+		// names that are not names of the job's tasks but lead to one when read as a path
+		if len(expects[j]) > 0 {
+			real := expects[j][0].name
+			for _, spelled := range []string{"nope/" + real, "./" + real, real + "/", "/" + real, "../" + id.String() + "/" + real, real + "/."} {
+				if code, _ := w.get("/job/logs?id=" + id.String() + "&task=" + url.QueryEscape(spelled)); code != 404 {
+					rt.Fatalf("[C19] GET /job/logs for task %q, which the job does not have (it has %q) -> %d, want 404", spelled, real, code)
+				}
+			}
+		}
 	}
 }
 
